@@ -521,6 +521,12 @@ def mut_shadow(rng, p):
         if not vs:
             raise NoSite()
         x, y = rng.choice(vs), rng.choice(vs)
+        if rng.random() < 0.4:
+            # the rebound variable is bound by an EARLIER CONDITION OF THE SAME CLAUSE (no comma between the two conditions)
+            w = "c15w"
+            first = ("let", w, "incs", [y]) if rng.random() < 0.5 else ("iflet", w, "predpos", [y])
+            it = ("clause", it[1], it[2], list(it[3]) + [first])
+            x, seen = w, seen + [w]
         if rng.random() < 0.5:
             if sname not in SHAPES_FOR["iflet"] and not str(sname).startswith("ctx:"):
                 sname, shape = None, None
